@@ -25,4 +25,5 @@ def main():
 
 
 if __name__ == '__main__':
-    main()
+    from harness.runner import _bigframe
+    _bigframe(main)
